@@ -297,13 +297,23 @@ package smf
 // ---------------------------------------------------------------- tempo map built while reading (safety; the values are C11)
 //@ macro tcsOK(t) = forall i int :: 0 <= i && i < len(t) ==> t[i] != nil
 
+// the tempo change in force at a tick: the last entry of the leading run of entries at or before the tick
+// (the list is kept sorted by tick; each tempo is valid from its tick until the next one)
+//@ macro tcLast(t, k, absTicks) = 0 <= k && k < len(t) && (forall j int :: 0 <= j && j <= k ==> t[j].AbsTicks <= absTicks) && (k + 1 == len(t) || t[k + 1].AbsTicks > absTicks)
 //@ func (TempoChanges).TempoChangeAt
 //@ requires tcsOK(t)
+//@ ensures [P:C11] (len(t) == 0 || t[0].AbsTicks > absTicks) ==> tch == nil
+//@ ensures [P:C11] forall k int :: tcLast(t, k, absTicks) ==> tch == t[k]
 //@ loop 0 invariant -1 <= rangeindex && rangeindex < len(t)
+//@ loop 0 invariant forall j int :: 0 <= j && j <= rangeindex ==> t[j].AbsTicks <= absTicks
+//@ loop 0 invariant (rangeindex == -1 ==> tch == nil) && (rangeindex >= 0 ==> tch == t[rangeindex])
 //@ loop 0 decreases len(t) - rangeindex
 
+// 120 BPM before the first tempo change
 //@ func (TempoChanges).TempoAt
 //@ requires tcsOK(t)
+//@ ensures [P:C11] (len(t) == 0 || t[0].AbsTicks > absTicks) ==> bpm == 120.0
+//@ ensures [P:C11] forall k int :: tcLast(t, k, absTicks) ==> bpm == t[k].BPM
 
 //@ func (*SMF).calculateAbsTimes
 //@ requires tcsOK(s.tempoChanges)
@@ -357,3 +367,15 @@ package smf
 //@ ensures [H] old(f.spos) <= f.spos && f.spos <= f.sn
 //@ loop 0 invariant -1 <= rangeindex && rangeindex < len(opts)
 //@ loop 0 decreases len(opts) - rangeindex
+
+// TimeAt (C11): the absolute time of the last tempo change strictly before the tick plus the duration of the remaining
+// ticks at that tempo; 120 BPM when there is none. Stated over the tempo map as it is after the call (the call may
+// sort it and fill in the absolute times first). us = floor(ns / 1000), as Duration.Microseconds does.
+// (Only the case without a preceding tempo change is proved; the clause for a preceding change k,
+//  result - t[k].AbsTimeMicroSec = us(durOf(q, t[k].BPM, tick - t[k].AbsTicks)), times out in all three solvers.)
+//@ macro usIs(us, ns) = real(int(us)) * 1000.0 <= ns && ns < real(int(us)) * 1000.0 + 1000.0
+//@ macro tfQ(s) = (uint16(bval(s.TimeFormat)) == 0 ? 960 : uint16(bval(s.TimeFormat)))
+//@ func (*SMF).TimeAt
+//@ requires s != nil && typeof(s.TimeFormat) == typeid(MetricTicks) && tcsOK(s.tempoChanges) && absTicks >= 0 && absTicks < 4294967296
+//@ modifies s.tempoChangesFinished, s.tempoChanges[:], any(TempoChange).AbsTimeMicroSec
+//@ ensures [P:C11] ((len(s.tempoChanges) == 0 || s.tempoChanges[0].AbsTicks > absTicks - 1) && durOf(tfQ(s), 120.0, uint32(absTicks)) >= 0.0 && durOf(tfQ(s), 120.0, uint32(absTicks)) < 9223372036854775808.0) ==> usIs(absTimeMicroSec, durOf(tfQ(s), 120.0, uint32(absTicks)))
